@@ -256,7 +256,8 @@ Section AD.
     Variable ps : list nat.           (* the parameters: duplicate-free, covering the tape *)
     Hypothesis Hwf : wf_ops ops0.
     Hypothesis HLA : forall k oi, nth_error ops0 k = Some oi -> f_inner F (o_op oi) = None ->
-      LocalAdjoint rO radd rmul F jvp (o_op oi).
+      LocalAdjoint rO radd rmul F jvp size (o_op oi).
+    Hypothesis Hshp : shape_ok F ops0.
     Hypothesis Hcons : consistent ops0 e0.
     Hypothesis Hrs : rsized ops0 e0.
     Hypothesis Hnd : NoDup ps.
@@ -351,33 +352,43 @@ Section AD.
           destruct Hs as (s & Hs). exists s. split; [exact Hs|]. destruct (slot_sg ops a s Hsg Hs) as (s0 & Hs0 & Esh & _).
           destruct (Hrs a s0 Hs0) as (Ht & Hb0). rewrite <- Esh. split; [|exact Ht]. apply Hb0.
           rewrite <- (bread_sg ops ops0 e e0 a Hsg Hpv). exact Hx. }
-        assert (HF1 : Forall2 (fun x dx => length dx = length x) xs dxs).
-        { unfold dxs. clear - Hxs Hslot_arg. induction Hxs as [|a x l l' Hax _ IH]; simpl; constructor.
-          - destruct (Hslot_arg a x (or_introl eq_refl) Hax) as (s & _ & A & B). congruence.
-          - apply IH. intros b y Hb. apply Hslot_arg. right; exact Hb. }
-        assert (HF2 : Forall2 (fun y gy => length gy = length y) (f_fw F (o_op cur) pos xs) gys).
-        { rewrite <- Hys. unfold gys. pose proof (all_vals_spec _ _ Eys) as Hv.
-          clear - Hv Hgys Hrs Hsg Ecur Hpv. revert ys Hv.
-          assert (Hval : forall j s y, nth_error (o_rets cur) j = Some s -> s_val s = Some y -> length y = size (s_shape s)).
-          { intros j s y Hj Hy. assert (Hs : get_slot_ops ops (k, j) = Some s) by (unfold get_slot_ops; simpl; rewrite Ecur; exact Hj).
-            destruct (slot_sg ops (k, j) s Hsg Hs) as (s0 & Hs0 & Esh & Ev). destruct (Hrs (k, j) s0 Hs0) as (_ & Hb0).
-            rewrite <- Esh. apply Hb0. unfold bread. unfold get_slot_ops in Hs0. simpl in *.
-            destruct (nth_error ops0 k) as [o0|]; [|discriminate]. rewrite Hs0. rewrite Ev, Hy. reflexivity. }
-          revert Hgys Hval. generalize (o_rets cur) as rets. induction rets as [|s r IH]; intros Hg Hval [|y ys] Hv; simpl in *; try discriminate; constructor.
-          - injection Hv as Hv0 _. rewrite (Hg 0 s eq_refl). symmetry. apply (Hval 0 s y eq_refl Hv0).
-          - injection Hv as _ Hv1. apply IH; auto; intros j; [apply (Hg (S j))|apply (Hval (S j))]. }
-        destruct (HLA k cur0 Ecur0 (eq_trans (f_equal (f_inner F) (eq_sym Eo)) Ein) pos xs dxs gys) as (LA1 & LA2 & _); [try rewrite <- Eo; exact HF1|try rewrite <- Eo; exact HF2|].
+        destruct (Hshp k cur0 Ecur0 (eq_trans (f_equal (f_inner F) (eq_sym Eo)) Ein)) as (ashs & Hashs & Hfs).
+        rewrite <- Ea in Hashs.
+        (* the slot of an argument, in the current state, with the shape forward_shape saw *)
+        assert (Harg_sh : forall a sh, In a (o_args cur) -> (exists s0, get_slot_ops ops0 a = Some s0 /\ s_shape s0 = sh) ->
+                  exists s, get_slot_ops ops a = Some s /\ s_shape s = sh).
+        { intros a sh _ (s0 & Hs0 & Esh). unfold get_slot_ops in *. pose proof (sg_nth ops ops0 (fst a) Hsg) as Hka.
+          destruct (nth_error ops0 (fst a)) as [o2|]; [|discriminate]. destruct (nth_error ops (fst a)) as [o1|]; [|contradiction].
+          destruct Hka as (_ & _ & _ & _ & Es).
+          assert (E2 : option_map s_shape (nth_error (o_rets o1) (snd a)) = option_map s_shape (nth_error (o_rets o2) (snd a)))
+            by (rewrite <- !nth_error_map, Es; reflexivity).
+          rewrite Hs0 in E2. destruct (nth_error (o_rets o1) (snd a)) as [s|]; [|discriminate]. simpl in E2. exists s. split; congruence. }
+        assert (HF1 : Forall2 (fun x sh => length x = size sh) xs ashs).
+        { clear - Hxs Hashs Hslot_arg Harg_sh. revert ashs Hashs. induction Hxs as [|a x l l' Hax _ IH]; intros ashs Hashs; inversion Hashs as [|? sh ? shs Hsh Hrest]; subst; constructor.
+          - destruct (Hslot_arg a x (or_introl eq_refl) Hax) as (s & Hs & A & _).
+            destruct (Harg_sh a sh (or_introl eq_refl) Hsh) as (s' & Hs' & <-). congruence.
+          - apply IH; auto; intros; [apply Hslot_arg|apply Harg_sh]; auto; right; auto. }
+        assert (HF1' : Forall2 (fun dx sh => length dx = size sh) dxs ashs).
+        { unfold dxs. clear - Hxs Hashs Hslot_arg Harg_sh. revert ashs Hashs. induction Hxs as [|a x l l' Hax _ IH]; intros ashs Hashs; inversion Hashs as [|? sh ? shs Hsh Hrest]; subst; simpl; constructor.
+          - destruct (Hslot_arg a x (or_introl eq_refl) Hax) as (s & Hs & _ & B).
+            destruct (Harg_sh a sh (or_introl eq_refl) Hsh) as (s' & Hs' & <-). congruence.
+          - apply IH; auto; intros; [apply Hslot_arg|apply Harg_sh]; auto; right; auto. }
+        assert (HF2 : Forall2 (fun gy sh => length gy = size sh) gys (map s_shape (o_rets cur0))).
+        { rewrite <- Eshp. unfold gys. clear - Hgys. revert Hgys. generalize (o_rets cur) as rets.
+          induction rets as [|s r IH]; intro Hg; simpl; constructor; [apply (Hg 0 s eq_refl)|].
+          apply IH. intros j. apply (Hg (S j)). }
+        destruct (HLA k cur0 Ecur0 (eq_trans (f_equal (f_inner F) (eq_sym Eo)) Ein) pos ashs _ xs dxs gys Hfs HF1 HF1' HF2) as (LA1 & LA2 & _).
         rewrite <- Eo, <- Hys in LA1, LA2.
         set (incs := eff_bw F (o_op cur) xs ys gys) in *.
         assert (Hincs : forall i inc, nth_error incs i = Some inc -> exists a s gx, nth_error (o_args cur) i = Some a /\
                   get_slot_ops ops2 a = Some s /\ s_grad s = Some gx /\ length gx = length inc).
-        { intros i inc Hi. destruct (LA2 i inc Hi) as (x & Hx & Hlx).
-          assert (Ha : exists a, nth_error (o_args cur) i = Some a /\ bread F ops e a = Some x).
-          { clear - Hxs Hx. revert i Hx. induction Hxs as [|a y l l' Hay _ IH]; intros [|i] Hx; simpl in *; try discriminate.
+        { intros i inc Hi. destruct (LA2 i inc Hi) as (sh & Hsh & Hlx).
+          assert (Ha : exists a, nth_error (o_args cur) i = Some a /\ exists s0, get_slot_ops ops0 a = Some s0 /\ s_shape s0 = sh).
+          { clear - Hashs Hsh. revert i Hsh. induction Hashs as [|a y l l' Hay _ IH]; intros [|i] Hx; simpl in *; try discriminate.
             - injection Hx as ->. eauto.
             - apply IH. exact Hx. }
-          destruct Ha as (a & Eai & Hax). pose proof (nth_error_In _ _ Eai) as Hain.
-          destruct (Hslot_arg a x Hain Hax) as (s & Hs & Hlx2 & _).
+          destruct Ha as (a & Eai & Hs0). pose proof (nth_error_In _ _ Eai) as Hain.
+          destruct (Harg_sh a sh Hain Hs0) as (s & Hs & Eshs).
           assert (Hm : mem_addr a (o_args cur) = true).
           { unfold mem_addr. apply existsb_exists. exists a. split; auto. destruct (addr_eq_spec a a); congruence. }
           assert (Hget2 : get_slot_ops ops2 a = Some (mat_zero VO s)).
@@ -385,7 +396,7 @@ Section AD.
             destruct (Nat.eqb_spec k (fst a)) as [E|N]; [exfalso; apply (Hargs a Hain); auto|]. rewrite Hs. reflexivity. }
           exists a, (mat_zero VO s). destruct (s_grad (mat_zero VO s)) as [gx|] eqn:Eg.
           - exists gx. repeat split; auto. rewrite (mat_zero_sized ops a s Hgs Hs gx Eg).
-            assert (Hsh : s_shape (mat_zero VO s) = s_shape s) by (unfold mat_zero; destruct (s_grad s); reflexivity). rewrite Hsh. congruence.
+            assert (Hsh' : s_shape (mat_zero VO s) = s_shape s) by (unfold mat_zero; destruct (s_grad s); reflexivity). rewrite Hsh'. congruence.
           - exfalso. unfold mat_zero in Eg. destruct (s_grad s) eqn:E1; [congruence|discriminate]. }
         pose proof (pot_add_incs (o_args cur) ops2 incs Hincs) as Hp3. fold dxs in Hp3.
         assert (Ek3 : nth_error (add_incs VO ops2 (o_args cur) incs) k = Some (set_rets cur (map (mat_zero VO) (o_rets cur))))
@@ -451,5 +462,21 @@ Section AD.
       rewrite (pot_gclean ops' Hclean') in Q. unfold C in Q. rewrite Hpot0 in Q.
       transitivity (rO +! ppot ps e'); [ring|]. rewrite Q. ring.
     Qed.
+
+    (* the same for Graph::backward itself on a graph whose target is already evaluated *)
+    Corollary backward_adjoint (g : @gstate Op Sh vec) n sn v g' e' :
+      g_ops g = ops0 -> gclean ops0 -> psz e0 -> get_slot g n = Some sn -> s_val sn = Some v ->
+      backward F VO g e0 n = Some (g', e') ->
+      ppot ps e' = ppot ps e0 +! dot (vones VO (s_shape sn)) (tan n) /\ gclean (g_ops g') /\ e_pval e' = e_pval e0.
+    Proof.
+      intros Eg Hcl Hps Hsn Hv H. unfold backward in H. rewrite Hsn, Hv in H. rewrite Eg in H.
+      destruct (sweep F VO (fst n) (upd_ops ops0 n (fun s => set_grad s (Some (vones VO (s_shape s))))) e0 (g_blog g)) as [[[ops' e1] bl']|] eqn:Es; [|discriminate].
+      injection H as <- <-. cbn [g_ops]. unfold get_slot in Hsn. rewrite Eg in Hsn.
+      exact (reverse_sweep_adjoint n sn (g_blog g) ops' e1 bl' Hcl Hps Hsn Es).
+    Qed.
   End Sweep.
 End AD.
+
+Check @reverse_sweep_adjoint.
+Print Assumptions reverse_sweep_adjoint.
+Print Assumptions backward_adjoint.
